@@ -126,6 +126,18 @@ def run(prop, tier, seed, replay=None):
     tl = [l for l in open(tpath) if '"div":false' in l and '"L":0' not in l]
     disc = [l for l in tl if json.loads(l)["l"][-1] > 0 and _disconnected(json.loads(l))]
     rl = [l for l in open(path)]
+    # the routing lines come sorted by size (a run of tadpoles first): deal them round-robin over (edges, externals or not) so
+    # that the origins actually used cover one- and two-edge graphs with externals, vacuum graphs and the larger topologies
+    groups = {}
+    for l in rl:
+        o = json.loads(l)
+        groups.setdefault((len(o["g"]["edges"]), len(o["g"]["ext"]) > 0, any(a == b for a, b in o["g"]["edges"]), any(o["g"]["mass"])), []).append(l)
+    keys = sorted(groups)
+    rl = []
+    while any(groups[k] for k in keys):
+        for k in keys:
+            if groups[k]:
+                rl.append(groups[k].pop(0))
     mixed = os.path.join(wd, "origins.ndjson")
     with open(mixed, "w") as f:
         # head of the file (always used): disconnected accepted graphs first, then other table graphs, then routing lines
@@ -137,7 +149,7 @@ def run(prop, tier, seed, replay=None):
     path = mixed
     trace = os.path.join(wd, "api.ndjson")
     s = core.mt("record-api", path, os.path.join(wd, "sum.json"), seed,
-                {"trace": trace, "nolog": nolog, "origins": 16 if tier == "quick" else 60, "args": 4 if tier == "quick" else 8,
+                {"trace": trace, "nolog": nolog, "origins": 28 if tier == "quick" else 80, "args": 4 if tier == "quick" else 8,
                  "threads": 8 if tier == "quick" else 16, "calls": 1500 if tier == "quick" else 10000})
     if s["counters"].get("process_nolog", 0) != 1 or s["counters"].get("process_second-process", 0) != 1:
         raise core.ToolError("the second process / the nolog binary did not run: %s" % s["notes"])
